@@ -37,7 +37,31 @@ def _limits(mem_gb):
     return f
 
 
+def _group_cpu(pgid):
+    """CPU seconds (user + system) consumed so far by the live processes of one process group"""
+    tot = 0
+    tck = os.sysconf('SC_CLK_TCK')
+    for d in os.listdir('/proc'):
+        if not d.isdigit():
+            continue
+        try:
+            st = open('/proc/%s/stat' % d).read()
+            rest = st[st.rindex(')') + 2:].split()
+            # fields after the command: state ppid pgrp ... utime(11) stime(12) cutime(13) cstime(14)
+            if int(rest[2]) != pgid:
+                continue
+            tot += int(rest[11]) + int(rest[12]) + int(rest[13]) + int(rest[14])
+        except (OSError, ValueError, IndexError):
+            continue
+    return tot / float(tck)
+
+
+WALL_FACTOR = 8
+
+
 def sh(cmd, timeout, mem_gb, cwd, env=None, stdout_path=None):
+    """the time limit is a limit on CPU seconds of the process group (robust against an oversubscribed machine);
+    wall time is capped at WALL_FACTOR x the limit as a safety net"""
     t0 = time.time()
     e = dict(os.environ)
     e['TMPDIR'] = cwd
@@ -46,17 +70,28 @@ def sh(cmd, timeout, mem_gb, cwd, env=None, stdout_path=None):
     out = open(stdout_path, 'wb') if stdout_path else subprocess.PIPE
     p = subprocess.Popen(cmd, cwd=cwd, env=e, stdout=out, stderr=subprocess.PIPE if stdout_path else subprocess.STDOUT,
                          preexec_fn=_limits(mem_gb))
-    try:
-        o, er = p.communicate(timeout=timeout)
-    except subprocess.TimeoutExpired:
+    o = er = None
+    expired = False
+    peak = 0.0
+    while True:
         try:
-            os.killpg(p.pid, signal.SIGKILL)
-        except ProcessLookupError:
-            pass
-        p.wait()
+            o, er = p.communicate(timeout=2)
+            break
+        except subprocess.TimeoutExpired:
+            cpu = _group_cpu(p.pid)
+            peak = max(peak, cpu)
+            if peak > timeout or time.time() - t0 > WALL_FACTOR * timeout:
+                expired = True
+                try:
+                    os.killpg(p.pid, signal.SIGKILL)
+                except ProcessLookupError:
+                    pass
+                p.wait()
+                break
+    if expired:
         if stdout_path:
             out.close()
-        raise Undecided('timeout', '%s after %ds' % (cmd[0], timeout))
+        raise Undecided('timeout', '%s after %ds of CPU time (wall %ds)' % (cmd[0], timeout, time.time() - t0))
     if stdout_path:
         out.close()
         text = (er or b'').decode(errors='replace')
